@@ -81,6 +81,9 @@ class C11(Prop):
         "NV.C11.sim_coLoop",
         "NV.C11.sim_coDispatch",
         "NV.C11.gen_chbTail_eq",
+        "NV.C11.sim_runDead",
+        "NV.C11.destructed_never_enabled",
+        "NV.C11.oracle_own_set_heart_beat_of_destructed",
         "NV.C11.error_outside_heart_beat_switches_off_nobody",
         "NV.C11.oracle_error_outside_heart_beat",
         "NV.C11.sim_hookStep",
